@@ -165,8 +165,8 @@ def _dag(rng, n, shape):
     return edges
 
 
-BIG = {'nm': {3: 10, 4: 20, 5: 25, 6: 20, 8: 25}, 'nobs': {2: 15, 3: 30, 4: 30, 5: 25},
-       'ntasks': {3: 10, 4: 15, 5: 15, 6: 20, 8: 20, 10: 10, 12: 10}}
+BIG = {'nm': {3: 8, 4: 15, 5: 20, 6: 17, 8: 20, 10: 10, 12: 10}, 'nobs': {2: 12, 3: 25, 4: 25, 5: 20, 6: 10, 7: 8},
+       'ntasks': {3: 8, 4: 12, 5: 12, 6: 18, 8: 18, 10: 10, 12: 10, 15: 7, 18: 5}}
 
 
 def gen(seed, profile='general', big=False):
@@ -212,7 +212,7 @@ def gen(seed, profile='general', big=False):
         machines = {str(i + 1): machines['m%d' % i] for i in range(nm)}
     elif rng.random() < P.get('prefix_ids', 0.1):
         # names of which one is a prefix of another (m1, m10, m11, ...)
-        pn = ['m1', 'm10', 'm11', 'm12', 'm100', 'm101', 'm13', 'm14']
+        pn = ['m1', 'm10', 'm11', 'm12', 'm100', 'm101', 'm13', 'm14', 'm2', 'm20', 'm21', 'm3']
         machines = {pn[i]: machines['m%d' % i] for i in range(nm)}
     machine_order = None
     if nm > 1 and rng.random() < P.get('shuffle_machines', 0.25):
@@ -233,9 +233,11 @@ def gen(seed, profile='general', big=False):
 
     obs = []
     t = rng.choice([0, 0, 1, 3])
+    if P.get('monitor', 'light') == 'light' and rng.random() < P.get('late', 0.01):
+        t = rng.choice([990, 996, 999, 1000])      # the run crosses t = 1000
     names = ['o%d' % i for i in range(nobs)]
     if rng.random() < 0.3:
-        pool = ['emu', 'dingo', 'wallaby', 'vast', 'flash', 'possum']
+        pool = ['emu', 'dingo', 'wallaby', 'vast', 'flash', 'possum', 'gaskap', 'craft']
         rng.shuffle(pool)
         names = pool[:nobs]
     for i in range(nobs):
@@ -304,7 +306,7 @@ def gen(seed, profile='general', big=False):
         rng.choice(obs)['data_product_rate'] = x if round(x * k) <= hot_rate * k else 0.4
 
     vols = [round(o['data_product_rate'] * k) * o['_d'] for o in obs]
-    regime = pick('buffer', {'ample': 85, 'wait': 7, 'tight': 5, 'over': 3})
+    regime = pick('buffer', {'ample': 83, 'wait': 7, 'tight': 5, 'over': 3, 'exact': 2})
     vmax, vsum = max(max(vols), 1), max(sum(vols), 1)
     if regime == 'ample':
         hot_cap = int(vsum / rng.choice([0.2, 0.4, 0.55])) + 1
@@ -312,6 +314,15 @@ def gen(seed, profile='general', big=False):
         hot_cap = int(vmax / 0.55)
     elif regime == 'tight':
         hot_cap = vmax + rng.randint(1, max(1, vmax // 2))
+    elif regime == 'exact':
+        # numeric coincidences: the second observation fits exactly into what the first leaves free; the first
+        # fills the buffer exactly to its 0.6 tiering threshold; the smallest capacity that is feasible at all
+        opts = [vmax + 1]
+        if len(vols) >= 2 and vols[0] + vols[1] > vmax:
+            opts += [vols[0] + vols[1]] * 2
+        if vols[0] % 3 == 0 and vols[0] > 0:
+            opts += [vols[0] * 5 // 3] * 2
+        hot_cap = rng.choice(opts)
     else:
         hot_cap = int(vmax / rng.choice([0.65, 0.8, 0.95]))
     hot_cap = max(hot_cap, vmax + 1)
@@ -448,10 +459,10 @@ PROFILES = {
              'pattern': {'overlap': 45, 'b2b': 35, 'simul': 10, 'gaps': 10},
              'buffer': {'ample': 90, 'wait': 10},
              'faults': {'F1': 0.4, 'F3': 0.15, 'F4': 0.4}},
-    'live': {'buffer': {'ample': 50, 'wait': 25, 'tight': 15, 'over': 10},
+    'live': {'buffer': {'ample': 46, 'wait': 24, 'tight': 14, 'over': 9, 'exact': 7},
              'pattern': {'gaps': 15, 'b2b': 22, 'simul': 25, 'overlap': 26, 'crowd': 12},
              'faults': {'F1': 0.35, 'F3': 0.2, 'F4': 0.3}},
-    'buffer': {'buffer': {'ample': 60, 'wait': 20, 'tight': 16, 'over': 4}, 'overrate': 0.06,
+    'buffer': {'buffer': {'ample': 56, 'wait': 19, 'tight': 15, 'over': 4, 'exact': 6}, 'overrate': 0.06,
                'pattern': {'b2b': 30, 'overlap': 50, 'simul': 10, 'gaps': 10},
                'nobs': {2: 40, 3: 40, 4: 20}, 'faults': {'F1': 0.3, 'F4': 0.2}},
     'real': {'monitor': 'real', 'overrun': 0.25, 'zero_rate': 0.12, 'dur': {1: 20, 2: 25, 3: 25, 4: 15, 5: 15}, 'big_units': 0.4,
